@@ -52,6 +52,7 @@ def noise_menu(delta):
     m.append(("misplaced-last",))
     m.append(("misplaced-first-inside",))      # terminal exon aligned inside the first annotated intron
     m.append(("trunc-left",))
+    m.append(("aligned-polya",))               # the polyA tail aligned as a separate terminal block behind a spurious intron (IsoQuant trims it)
     return m
 
 
@@ -161,6 +162,13 @@ def pipeline_case(args):
             rd = {"name": nm, "chr": "chr1", "blocks": [list(b) for b in blocks], "clip_right": "A" * 30}
             if edits:
                 rd["edits"] = edits
+            if any(x[0] == "aligned-polya" for x in devs):
+                # 25 A's of the tail aligned 300 bp downstream, the rest soft-clipped; the expected input alignment is the trimmed one
+                if any(x[0] in ("fake-right", "misplaced-last") for x in devs):
+                    continue
+                rd["blocks"].append([blocks[-1][1] + 301, blocks[-1][1] + 325])
+                rd["block_seq"] = {len(rd["blocks"]) - 1: "A" * 25}
+                rd["clip_right"] = "A" * 12
             reads[nm] = (rd, devs, blocks)
     w["reads"] = [v[0] for v in reads.values()]
     dd = os.path.join(scratch, "c14_%s_%s_%d" % (strategy, preset, d))
